@@ -1,7 +1,7 @@
 """C02 - sub-threshold confidentiality."""
 from .. import query as Q
 from ..terms import PHI, Term, is_t, subterms
-from .common import S, fidx, ok_variant
+from .common import S, fidx, is_zero_bytes, ok_variant
 from . import c01, c05
 
 EXPLANATION = (
@@ -34,7 +34,7 @@ def raw_nodes(t, oneway):
         if not isinstance(x, Term) or x.id in seen:
             continue
         seen.add(x.id)
-        if x.op in oneway:
+        if x.op in oneway or ("fold" in oneway and x.op == "phi" and Q.is_loop_acc(x)):
             continue
         if x.op == "phi":
             inc = PHI.get(x.args[0])
@@ -205,14 +205,20 @@ def run(ctx):
         secret, rng = dr[0]["argv"][1], dr[0]["argv"][2]
         CM = "adss::Commune"
         want = {"self.%d.0" % fidx(ctx, CM, "A"), "self.%d" % fidx(ctx, CM, "M"), "self.%d" % fidx(ctx, CM, "R")}
-        oks = secret.op == "append" and secret.args[0].op == "owf" and secret.args[0].args[0] == "prf" and \
-            secret.args[1].op == "from_elem" and Q.leaves(secret.args[1]) == set()
+        # K || 0^16 however the buffer is assembled (to_vec + extend, with_capacity + two extend_from_slice, concat ...)
+        sp = [p_[1] for p_ in Q.parts_of(secret) if p_[0] in ("part", "base")] if len(Q.parts_of(secret)) == 2 else []
+        kterm = sp[0] if sp else None
+        n_ = 0
+        while kterm is not None and kterm.op in ("refv", "conv", "copied", "collected", "deref") and n_ < 8:
+            kterm = kterm.args[0]
+            n_ += 1
+        oks = len(sp) == 2 and kterm.op == "owf" and kterm.args[0] == "prf" and is_zero_bytes(sp[1])
         ps = Q.params(Q.leaves(secret))
         ctx.add("C02.R6", "adss::Commune::share#secret-is-K-pad", oks and want <= ps,
                 "the dealt secret must be K || 0^16 with K a PRF output of the transcript over (A, M, R); found %s depending on %s"
                 % (S(secret, 3), sorted(ps)), dr[0]["at"], sample=sorted(ps))
         # coefficient generator = continuation of K's transcript
-        trk = Q.trace_of(secret.args[0].args[1]) if oks else []
+        trk = Q.trace_of(kterm.args[1]) if oks else []
         trr = Q.trace_of(rng)
         cont = bool(trk) and trr[:len(trk)] == trk
         pr = Q.params(Q.leaves(rng))
